@@ -385,6 +385,8 @@ var pinnedProbes = []pinned{
 	{"x = {get a(){}, get a(){}}", 13, false, true},
 	{"x = {0x: 1}", 16, false, true},
 	{"x = {1e+: 1}", 16, false, true},
+	{"for (x = a < b in c;;);", 18, false, true},
+	{"for (var i = 0, j = a instanceof b in c;;);", 18, false, true},
 	{"x = /a/ g", 15, false, true},
 	{"x = /a/\ng", 15, false, true},
 	// fixed finding C04-switch-unterminated (ceb8c0d): regression cases, the ES5 verdict is expected now
@@ -430,6 +432,8 @@ func main() {
 	h.literalStream()
 	h.sourceMapStream()
 	h.staticMatrix()
+	h.escapeStream()
+	h.noInStream()
 	for env.Count() < env.N {
 		switch k := r.Intn(20); {
 		case k < 8: // generated program, verdict decided by the Coq model/spec
